@@ -69,6 +69,7 @@ func startNode(dir string, atGenesis bool) *world {
 	wcfg.WalletDir = filepath.Join(dir, "wallets")
 	wcfg.EnableWalletAPI = true
 	wcfg.EnableSeedAPI = true
+	wcfg.CryptoType = "sha256-xor" // the default (scrypt) needs seconds per encryption; the cipher is not what C28 is about
 	ws, err := wallet.NewService(wcfg)
 	must(err)
 	w1, err := ws.CreateWallet("w1.wlt", wallet.Options{Type: wallet.WalletTypeDeterministic, Seed: seed, Label: "one", GenerateN: 3})
@@ -230,6 +231,9 @@ func value(wd *world, name string) string {
 	case "hash":
 		return pick(wd.blockHashes)
 	case "seq", "start", "end", "num", "n", "page", "limit":
+		if rng.Intn(4) == 0 {
+			return pick([]string{"18446744073709551615", "18446744073709551614", "9223372036854775807", "9223372036854775808", "4294967295", "4294967296", "2147483648", "1000000000000"})
+		}
 		return strconv.Itoa(rng.Intn(7))
 	case "seqs":
 		return "0,1," + strconv.Itoa(rng.Intn(9))
@@ -299,6 +303,10 @@ func main() {
 	atGenesis := seed%3 == 0
 	wd := startNode(dir, atGenesis)
 	client := &http.Client{Timeout: 15 * time.Second, Transport: &http.Transport{DisableKeepAlives: true}}
+	// wallet life-cycles: requests that depend on what earlier ones did (create from a seed of a small pool, then unload /
+	// encrypt / decrypt / derive / recover / create again from the same seed ...), woven into the random requests
+	seeds := []string{wd.seed + " s1", wd.seed + " s2", wd.seed + " s3"}
+	lastID, lastSeed, lastPw, scenarioLeft := "", "", "", 0
 	for i := 0; i < count; i++ {
 		rt := routes[rng.Intn(len(routes))]
 		uri := rt.URI
@@ -307,12 +315,64 @@ func main() {
 			method = rt.Methods[rng.Intn(len(rt.Methods))]
 		}
 		vals := url.Values{}
+		scenario := false
+		if scenarioLeft == 0 && rng.Intn(25) == 0 {
+			scenarioLeft = 3 + rng.Intn(6)
+			lastID = ""
+		}
+		if scenarioLeft > 0 {
+			scenarioLeft--
+			scenario = true
+			method = "POST"
+			if lastID == "" || rng.Intn(5) == 0 {
+				uri = "/api/v1/wallet/create"
+				if lastSeed == "" || rng.Intn(2) == 0 {
+					lastSeed = pick(seeds)
+				}
+				lastPw = ""
+				vals.Set("seed", lastSeed)
+				vals.Set("label", "sc")
+				vals.Set("type", pick([]string{"deterministic", "deterministic", "bip44"}))
+				if lastSeed != "" && vals.Get("type") == "bip44" {
+					vals.Set("seed", "abandon abandon abandon abandon abandon abandon abandon abandon abandon abandon abandon about")
+				}
+				if rng.Intn(3) == 0 {
+					lastPw = "pw"
+					vals.Set("encrypt", "true")
+					vals.Set("password", lastPw)
+				}
+			} else {
+				vals.Set("id", lastID)
+				switch rng.Intn(8) {
+				case 0, 1:
+					uri = "/api/v1/wallet/unload"
+				case 2:
+					uri = "/api/v1/wallet/encrypt"
+					vals.Set("password", "pw")
+				case 3:
+					uri = "/api/v1/wallet/decrypt"
+					vals.Set("password", "pw")
+				case 4:
+					uri = "/api/v1/wallet/newAddress"
+					vals.Set("num", strconv.Itoa(1+rng.Intn(3)))
+					vals.Set("password", lastPw)
+				case 5:
+					uri = "/api/v1/wallet/update"
+					vals.Set("label", "renamed")
+				case 6:
+					uri = "/api/v1/wallet/seed"
+					vals.Set("password", lastPw)
+				default:
+					method, uri = "GET", "/api/v1/wallet/balance"
+				}
+			}
+		}
 		names := append([]string{}, likely[uri]...)
 		for k := 0; k < rng.Intn(3); k++ {
 			names = append(names, paramNames[rng.Intn(len(paramNames))])
 		}
 		for _, n := range names {
-			if rng.Intn(5) > 0 {
+			if !scenario && rng.Intn(5) > 0 {
 				vals.Set(n, value(wd, n))
 			}
 		}
@@ -326,7 +386,7 @@ func main() {
 		ctype := ""
 		target := "http://" + wd.base + uri
 		form := "query"
-		if method == "GET" || method == "DELETE" || rng.Intn(4) == 0 {
+		if method == "GET" || method == "DELETE" || (!scenario && rng.Intn(4) == 0) {
 			target += "?" + vals.Encode()
 		} else if strings.HasPrefix(uri, "/api/v2") || uri == "/api/v1/wallet/transaction" || uri == "/api/v1/injectTransaction" {
 			form = "json"
@@ -369,7 +429,9 @@ func main() {
 		if ctype != "" {
 			req.Header.Set("Content-Type", ctype)
 		}
+		t0 := time.Now()
 		resp, err := client.Do(req)
+		r["ms"] = int(time.Since(t0) / time.Millisecond)
 		if err != nil {
 			r["err"] = err.Error()
 			if ne, ok := err.(net.Error); ok && ne.Timeout() {
@@ -378,13 +440,27 @@ func main() {
 				r["dropped"] = true
 			}
 		} else {
-			_, rerr := ioutil.ReadAll(resp.Body)
+			rb, rerr := ioutil.ReadAll(resp.Body)
 			resp.Body.Close()
 			r["status"], r["complete"] = resp.StatusCode, rerr == nil
 			if rerr != nil {
 				r["err"] = rerr.Error()
 			}
+			if scenario && uri == "/api/v1/wallet/create" && resp.StatusCode == 200 {
+				var cr struct {
+					Meta struct {
+						Filename string `json:"filename"`
+					} `json:"meta"`
+				}
+				if json.Unmarshal(rb, &cr) == nil && cr.Meta.Filename != "" {
+					lastID = cr.Meta.Filename
+				}
+			}
+			if scenario && uri == "/api/v1/wallet/unload" && resp.StatusCode == 200 {
+				lastID = "" // the next step creates again, half of the time from the same seed
+			}
 		}
+		r["scenario"] = scenario
 		must(enc.Encode(r))
 		w.Flush()
 	}
